@@ -52,8 +52,8 @@ N_SLOTS = 3
 
 def arms(tier):
     if tier == "thorough":
-        return [("plain", 260_000), ("faults", 160_000), ("restart", 6_000), ("matrix", 47 * 5 * 2 * 4)]
-    return [("plain", 9_000), ("faults", 6_000), ("restart", 320), ("matrix", 47 * 5)]
+        return [("plain", 400_000), ("faults", 280_000), ("restart", 12_000), ("matrix", 47 * 5 * 8)]
+    return [("plain", 18_000), ("faults", 12_000), ("restart", 500), ("matrix", 47 * 5)]
 
 
 def hist_slice(tier):
@@ -108,8 +108,10 @@ def gen_case(rng, arm, tier, k=0):
             slot = rng.randrange(N_SLOTS)
             ops.append(["resave", rng.randrange(gens), slot])
             saved.add(slot)
-        elif r < 0.82:
+        elif r < 0.78:
             ops.append(["refit"])
+        elif r < 0.84:
+            ops.append(["use", [rng.randrange(len(base["pool"])) for _ in range(rng.randint(1, 4))]])
         elif r < 0.90 and gens:
             ops.append(["check", rng.randrange(gens)])
         elif arm == "restart":
@@ -408,6 +410,16 @@ def run_case(case):
                     if got != exp:
                         raise Stop(violation("loaded-predictions-differ", "older loaded generation predicts %s, the model it was loaded from predicted %s" % (got, exp), **facts))
                 norm.append(("check",))
+            elif kop == "use":
+                # the original keeps being used between saves (supervised predict sets relevance flags)
+                out.steps += 1
+                batch = [q % len(rows) for q in op[1]]
+                try:
+                    c09.do_predict(m, case, rows, batch)
+                    bump(out.probes, "original_used_between_saves")
+                except Exception:  # noqa: BLE001 - consistently failing predictions are compared at the loads
+                    pass
+                norm.append(("use",))
             elif kop == "refit":
                 out.steps += 1
                 refits += 1
